@@ -124,7 +124,8 @@ def io_events(calls, out_path, arch_path):
             off = pos.get(p, 0)
             # coalesce a continuation of the previous operation of the same kind (short read / partial write)
             l = last.get(p)
-            if l is not None and l["ev"] == call and l["role"] == ro and l["off"] + l["len"] == off and call == "read" and ro == "archive":
+            if l is not None and l["ev"] == call and l["role"] == ro and l["off"] + l["len"] == off and ((call == "read" and ro == "archive") or (call == "write" and ro == "output" and l["len"] >= (1 << 20))):
+                # continuation: a short read of the archive, or tokio splitting a write larger than its 2 MiB buffer
                 l["len"] += r
             elif r > 0 or call == "write":
                 e = {"ev": call, "role": ro, "off": off, "len": r}
@@ -170,10 +171,40 @@ def main():
     discarded = 0
     with open(a.scen) as f:
         scens = [json.loads(x) for x in f if x.strip()]
+    if a.mode == "bulk":
+        # not TLC layouts but large synthesized ones: a source of some hundred natural chunks with duplicates, a prior output that is a
+        # rotation / shuffle of it with junk, seeds of several MB in which the needed chunks come late (beyond 1 MiB and 4 MiB)
+        scens = []
+        for j in range(a.every):       # --every = number of bulk scenarios per shard
+            scens.append({"bulk": True, "src": [], "prior": [], "seeds": []})
+        a.every = 1
+        a.shards_bulk = True
     for n, sc in enumerate(scens, 1):
-        if (n - 1) % a.every != 0 or ((n - 1) // a.every) % a.shards != a.shard:
+        if not sc.get("bulk") and ((n - 1) % a.every != 0 or ((n - 1) // a.every) % a.shards != a.shard):
             continue
-        source, prior, seeds = build_files(ctx, sc)
+        if sc.get("bulk"):
+            npool = len(ctx.pool)
+            picks = [rnd.randrange(npool) for _ in range(rnd.randint(250, 500))]
+            source = b"".join(ctx.pool[i] for i in picks)
+            variant = rnd.randrange(3)
+            pp = list(picks)
+            if variant == 0:
+                k = rnd.randrange(1, len(pp))
+                pp = pp[k:] + pp[:k]
+            elif variant == 1:
+                pp.reverse()
+            else:
+                rnd.shuffle(pp)
+            prior = b"".join(ctx.pool[i] if rnd.random() > 0.1 else rnd.randbytes(rnd.randint(100, 3000)) for i in pp[: rnd.randint(len(pp) // 2, len(pp))])
+            filler = rnd.randbytes(rnd.choice([1200000, 4300000]))
+            late = list(set(picks))
+            rnd.shuffle(late)
+            seeds = [filler + b"".join(ctx.pool[i] for i in late[: len(late) // 2]), b"".join(ctx.pool[i] for i in late[len(late) // 2: len(late) // 2 + 40])]
+            sc = dict(sc, inplace=rnd.random() < 0.6)
+            if not sc["inplace"]:
+                prior = b""
+        else:
+            source, prior, seeds = build_files(ctx, sc)
         d, arch = ctx.compress(source)
         src_chunks = pydecode.source_chunks(d)
         ids = {}
@@ -261,7 +292,15 @@ def main():
             data = open(out, "rb").read() if os.path.exists(out) else b""
             return {"ev": "after", "exit": code, "msg": msg, "out_len": len(data), "out_eq_src": data == source, "out_prefix_eq_src": data[:len(source)] == source and len(data) >= len(source)}
 
-        if a.mode == "httpfaults":
+        if a.mode == "bulk":
+            if prior and kind != "new":
+                open(out, "wb").write(prior)
+            code, msg, calls, http = run_once()
+            nrun += 1
+            evs = [scen_ev] + [e for e in io_events(calls, out, ap_) if not (e["ev"] == "read" and e["role"] == "output")] + [{"ev": "http", "first": x[0], "last": x[1], "cut": x[2]} for x in http] + [after_ev(code, msg), {"ev": "done"}]
+            for e in evs:
+                w.write(json.dumps(e) + "\n")
+        elif a.mode == "httpfaults":
             # the CLI's retry wiring: --http-retry-count r against a server that cuts the first chunk-data transfers after k bytes
             if prior and kind != "new":
                 open(out, "wb").write(prior)
